@@ -497,3 +497,27 @@ def gen_wide_dict_pair(rng, minkeys=4, maxkeys=8):
     elif r < 0.3:
         del t2[rng.choice(list(t2))]
     return t1, t2
+
+
+ML_PAIRS = [("x\n", "x"), ("a\nb", "a\nb\n"), ("a\r\nb", "a\nb"), ("a\nb", "a\nc"), ("l1\nl2\nl3", "l1\nl3"),
+            ("a\x0cb", "a\nb"), (b"p\n", b"p"), ("title", "title\n"), ("a\nb", "a\nb")]
+
+
+def plant_multiline(rng, t1, t2):
+    """replace the sub-values at one position common to t1 and t2 by a pair of multi-line strings
+    (differing in content, only in line terminators, or not at all); returns (t1, t2, done)"""
+    pos = [p for p in positions(t1) if p]
+    rng.shuffle(pos)
+    for p in pos[:6]:
+        try:
+            get_at(t2, p)
+        except Exception:
+            continue
+        a, b = rng.choice(ML_PAIRS)
+        if rng.random() < 0.5:
+            a, b = b, a
+        try:
+            return set_at(t1, p, a), set_at(t2, p, b), True
+        except TypeError:
+            continue
+    return t1, t2, False
